@@ -67,6 +67,14 @@ def run(ctx):
                         "the real system calls", "the driver's observation uses the real readers (get_buckets/read, slot_readv, get_leases)",
                         "the 32-byte magic of mutable containers is not re-checked by the Spec's recovery"]
     traces = ctx.impl("harness/crash_driver.py", [])
+    # an operation or a restart that raised (no crash layer involved): the Spec has no such step - reported as it is
+    for tr in [t for t in traces if "exception" in t]:
+        c = tr["consts"]
+        ctx.report("C29:%s:raised_%s" % (c["op"], tr["exception"].split(":")[0]),
+                   "%s (scenario %d%s) raised %s at %s" % (c["op"], c["scenario"], (", restart after a crash at step %d" % c["crash_at"]) if "crash_at" in c else "",
+                                                         tr["exception"], tr.get("where", "?")),
+                   replay={"kind": "crash-scenario-exception", "consts": c, "exception": tr["exception"], "where": tr.get("where")})
+    traces = [t for t in traces if "exception" not in t]
     ops = {}
     for tr in traces:
         c = tr["consts"]
